@@ -46,7 +46,7 @@ func runC01(e *Engine, tier Tier) *PropRun {
 		},
 		Results: rs, FUC: fucList(rs),
 		Explanation: "Zero-annotation panic-freedom sweep: for every function of the tokenizer, parser, AST, high-level API, scanner, linter, formatter, models, errors, keywords, token and metrics packages, one obligation per potentially panicking SSA instruction (index, slice bounds, nil dereference, type assertion, integer division, make with negative size, explicit panic), generated under the written contracts (data-structure invariants as preconditions, loop invariants) and discharged for all inputs. Only obligations in the committed baseline (discharged on the unchanged tree) are claimed; a claimed obligation that stops discharging is a violation and its counter-model is replayed against the real function. Termination (no hang): for the tokenizer, every scanning method proves the cursor invariant 0 <= pos <= len(input), monotonicity and progress (a successful read that started before the end consumed at least one byte), and the main loops of Tokenize/TokenizeContext prove the variant len(input) - pos; for the parser, the recursion-rank obligations of C02 and the cursor contracts of C08.",
-		NotCovered: []string{"stack exhaustion other than through the recursion measure of C02", "out-of-memory", "obligations undecided on the unchanged tree (listed, unclaimed)", "regexp engine inside ScanSQL", "termination of loops without a written variant"},
+		NotCovered:  []string{"stack exhaustion other than through the recursion measure of C02", "out-of-memory", "obligations undecided on the unchanged tree (listed, unclaimed)", "regexp engine inside ScanSQL", "termination of loops without a written variant"},
 		Assumptions: []string{"methods are not called on nil receivers", "callee without contract that is not inlined: havoc of its computed write set, result constrained only by its Go type"},
 	}
 }
